@@ -446,8 +446,41 @@ def gen_chain(g, filters=0.0, roots=0.0, doc=None, small=False):
                         return '@' + it, ('e', isp), (lambda x, isp=isp: bool(inner_reach(isp, [x])))
                     return '!@' + it, ('n', isp), (lambda x, isp=isp: not inner_reach(isp, [x]))
                 dnf = [[one_bq() for _ in range(r.choice([1, 1, 2] if small else [1, 2, 2, 3]))] for _ in range(r.choice([1, 1, 2] if small else [1, 1, 2, 2, 3]))]
-                text += '[?(' + '||'.join('&&'.join(b[0] for b in conj) for conj in dnf) + ')]'
-                add_f((10, [[b[1] for b in conj] for conj in dnf]))
+                if all(b[1][0] in 'enc' for conj in dnf for b in conj) and r.random() < 0.6:
+                    # the same query written with blanks (Coq's FQS): after `?(`, after `!`, around comparison operators, after every
+                    # basic query, after every `&&` and `||`
+                    optexts = ['==', '!=', '<', '<=', '>', '>=']
+                    gaps = lambda: r.choice([0, 0, 1, 1, 2])
+
+                    def sp_elem(b):
+                        tr_ = gaps()
+                        if b[1][0] == 'e':
+                            return b[0] + ' ' * tr_, ('e', False, 0, b[1][1], tr_)
+                        if b[1][0] == 'n':
+                            gn = gaps()
+                            return '!' + ' ' * gn + b[0][1:] + ' ' * tr_, ('e', True, gn, b[1][1], tr_)
+                        lit_ = ''.join(chr(x) for x in b[1][3])
+                        op_ = optexts[b[1][2]]
+                        pre_ = b[0][:len(b[0]) - len(lit_) - len(op_)]
+                        ga, gb = gaps(), gaps()
+                        return pre_ + ' ' * ga + op_ + ' ' * gb + lit_ + ' ' * tr_, ('c', b[1][1], ga, b[1][2], gb, b[1][3], tr_)
+                    g0 = gaps()
+                    stext, sconjs = '', []
+                    for ci, conj in enumerate(dnf):
+                        gc = gaps() if ci else 0
+                        stext += ('||' + ' ' * gc) if ci else ''
+                        elems = []
+                        for ei, b in enumerate(conj):
+                            ge = gaps() if ei else 0
+                            et, es = sp_elem(b)
+                            stext += (('&&' + ' ' * ge) if ei else '') + et
+                            elems.append((ge, es))
+                        sconjs.append((gc, elems))
+                    text += '[?(' + ' ' * g0 + stext + ')]'
+                    add_f((14, g0, sconjs))
+                else:
+                    text += '[?(' + '||'.join('&&'.join(b[0] for b in conj) for conj in dnf) + ')]'
+                    add_f((10, [[b[1] for b in conj] for conj in dnf]))
                 def ok_(b, x, sibs):
                     return b[2](x, sibs) if getattr(b[2], 'sibs', False) else b[2](x)
                 cur = [x for v in cur for sibs in [chain_children(v)] for x in sibs if any(all(ok_(b, x, sibs) for b in conj) for conj in dnf)]
@@ -652,7 +685,7 @@ class C01(EvalProp):
                     doc, text, spec, cur = gen_chain(g, filters=fl, roots=0.25 if r.random() < 0.5 else 0.0)
                 if cur or r.random() < 0.25:
                     break
-            has_filter = any(st[0] in (7, 8, 9, 10, 11, 12, 13) for st in spec)      # C01_filter_retrieval: the text is Coq's fchain_path
+            has_filter = any(st[0] in (7, 8, 9, 10, 11, 12, 13, 14) for st in spec)      # C01_filter_retrieval: the text is Coq's fchain_path
             nodollar = not has_filter and spec[0][0] != 4 and r.random() < 0.25
             if nodollar:
                 # C18_dollar_optional: the same path without its leading $ (a first dot name loses its dot, .* becomes *)
